@@ -693,6 +693,21 @@ func main() {
 		}
 	}
 	pl := buildPlan(th)
+	if os.Getenv("VERIF_C16_PLAN") != "" { // debugging aid: print the case-index layout and stop
+		for _, b := range pl.blocks {
+			name := codecs[b.proto.Codec].Name
+			switch b.proto.Kind {
+			case "mut":
+				name = codecs[b.proto.Codec].Decs[b.proto.B].Name + " base " + pl.bases[b.proto.Codec][b.proto.A].Class
+			case "arb":
+				name = codecs[b.proto.Codec].Decs[b.proto.A].Name + fmt.Sprintf(" prefix#%d", b.proto.B)
+			case "ord":
+				name = fmt.Sprintf("universe#%d", b.proto.A)
+			}
+			fmt.Printf("%8d +%-7d %s %s\n", b.first, b.n, b.proto.Kind, name)
+		}
+		os.Exit(0)
+	}
 	total := r.RunSharded(vr.Workers(), func(sh vr.ShardInfo, p *vr.Partial) {
 		caserun.Run(r, sh, p, caserun.Config{Name: "c16", N: pl.n, Only: only, Run: pl.runCase, Crash: pl.crash, MemLimitKB: memLimitKB, CaseTimeout: caseTimeout})
 	})
